@@ -1,5 +1,5 @@
 import Gimli.Lemmas.WLine
-import Gimli.Lemmas.LebSigned
+import Gimli.Lemmas.Leb
 import Gimli.Lemmas.WLineHeader
 /-!
 # C13 — Written line programs read back to exactly the rows that were generated
@@ -379,7 +379,7 @@ special opcode ≥ 13, `u64` operands, `i64` line advance, a constant address), 
 bytes `rest`: C04's `LineInstruction::parse` Model on the bytes `LineInstruction::write` emits
 returns exactly that instruction (file ids made raw) and `rest` — incl. the extended-opcode
 length prefixes of `end_sequence`, `set_address`, `set_discriminator` and the signed LEB128 operand
-of `advance_line` (`Leb.signed_roundtrip`, proved in `Lemmas/LebSigned.lean`). -/
+of `advance_line` (`Leb.signed_roundtrip`, proved in `Lemmas/Leb.lean`). -/
 theorem instr_bytes_roundtrip (h : Params) (hh : WriterHeader h) (i : WInstr)
     (henc : i.Encodable h.version)
     (bs : Bytes) (hw : writeInstr h.endian h.version h.addrSize i = .ok bs) (rest : Bytes) :
